@@ -132,6 +132,27 @@ pub struct Op {
 
 impl Op {
     fn data(&self) -> Vec<u8> {
+        // tags from 0xF0: payloads an implementation may be tempted to treat specially - nothing
+        // but zeroes, zeroes around one set byte, nothing but ones
+        match self.tag {
+            0xF0 => return vec![0u8; self.len],
+            0xF1 => {
+                let mut v = vec![0u8; self.len];
+                if let Some(x) = v.last_mut() {
+                    *x = 1;
+                }
+                return v;
+            }
+            0xF2 => return vec![0xFFu8; self.len],
+            0xF3 => {
+                let mut v = vec![0u8; self.len];
+                if let Some(x) = v.first_mut() {
+                    *x = 0x80;
+                }
+                return v;
+            }
+            _ => {}
+        }
         // (the high bits of the index are mixed in so that long buffers have no short period)
         (0..self.len).map(|j| 0x80 | (self.tag.wrapping_mul(17).wrapping_add(j as u8).wrapping_add(((j >> 7) as u8).wrapping_mul(5)) & 0x7f)).collect()
     }
@@ -740,7 +761,7 @@ mod xen_dev {
 pub fn run(tier: Tier, replay: Option<String>) -> i32 {
     let ctx = crate::new_ctx("C03", tier, "model_checking", &replay);
     let xen = cfg!(feature = "xen");
-    ctx.set_rule("E1: (a) depth 1 from a state in which every mapped byte carries a distinct label: every layout over U one-byte cells x bases {0, mid, top} (the mmap-backed map is built, rotating with the layout, by one constructor call, by inserting the regions one by one from the back, or together with extra regions that are removed again - a valid update may not be refused and the resulting map must behave the same) x every route (write, read, *_slice, *_obj of 1..16 bytes, the four stream forms with ample in-memory streams, store/load) x every start address in [base-1, base+U+1] x every length 1..=U+2; (a') three regions of 70000 / 66000 / 131073 bytes (two adjacent, one after a hole): every route with transfers of 2^16-1 .. 140000 bytes in one call, inside one region, crossing regions and ending in the hole; two adjacent regions of 2 MiB + 70000 and 1 MiB + 5 bytes: every route with transfers of 1 MiB+1 .. 3 MiB+60000 bytes in one call; one region of 64 MiB + 70000 bytes: six routes with transfers of 2^26+1 and 2^26+60000 bytes in one call; (b) BFS over all histories up to depth 3 of a reduced alphabet (all routes x ranges that overlap and straddle region boundaries and holes), state = complete memory contents, restored from the snapshot. Every transition runs on the real memory object; result class, counts, the complete guest memory (all regions, via host pointers), read buffers incl. untouched tail and (file-backed) the backing file are compared with a sparse byte-array model.");
+    ctx.set_rule("E1: (a) depth 1 from a state in which every mapped byte carries a distinct label: every layout over U one-byte cells x bases {0, mid, top} (the mmap-backed map is built, rotating with the layout, by one constructor call, by inserting the regions one by one from the back, or together with extra regions that are removed again - a valid update may not be refused and the resulting map must behave the same) x every route (write, read, *_slice, *_obj of 1..16 bytes, the four stream forms with ample in-memory streams, store/load) x every start address in [base-1, base+U+1] x every length 1..=U+2; (a') three regions of 70000 / 66000 / 131073 bytes (two adjacent, one after a hole): every route with transfers of 2^16-1 .. 140000 bytes in one call, inside one region, crossing regions and ending in the hole; the same layout with payloads of nothing but zeroes (4095 .. 140000 bytes), zeroes around one set byte at either end, and nothing but ones, over memory that holds labels; two adjacent regions of 2 MiB + 70000 and 1 MiB + 5 bytes: every route with transfers of 1 MiB+1 .. 3 MiB+60000 bytes in one call; one region of 64 MiB + 70000 bytes: six routes with transfers of 2^26+1 and 2^26+60000 bytes in one call; (b) BFS over all histories up to depth 3 of a reduced alphabet (all routes x ranges that overlap and straddle region boundaries and holes), state = complete memory contents, restored from the snapshot. Every transition runs on the real memory object; result class, counts, the complete guest memory (all regions, via host pointers), read buffers incl. untouched tail and (file-backed) the backing file are compared with a sparse byte-array model.");
     ctx.assume("error variants other than InvalidGuestAddress and PartialBuffer{expected,completed} are compared by class only");
     if xen {
         ctx.assume("Xen build: the cell layouts use MmapXenFlags::UNIX mappings; grant regions (mapped in advance and on demand) are exercised on the emulated gntdev with page-sized regions");
@@ -786,7 +807,7 @@ pub fn run(tier: Tier, replay: Option<String>) -> i32 {
                         let l = Layout::from_cells(base, c);
                         // the construction route rotates with the layout: one call, insertions,
                         // or extra regions removed again
-                        if let Some(m) = build_mmap_route_checked(ctx, "C03", &l, (ci + (base % 7) as usize) % 3) {
+                        if let Some(m) = build_mmap_route_checked(ctx, "C03", &l, (ci + (base % 7) as usize) % 4) {
                             depth1(ctx, anon, &m, &l, base, u, None);
                         }
                         if !xen {
@@ -875,6 +896,20 @@ pub fn run(tier: Tier, replay: Option<String>) -> i32 {
                         let op = Op { route: *route, addr: *addr, len: *len, tag: ri as u8 + 3 };
                         step(&ctx, anon, &m, &l, &st, &op, &[], None);
                         t += 1;
+                    }
+                }
+            }
+            // the same routes with payloads of nothing but zeroes (one page and more, over
+            // memory that holds labels), zeroes around one set byte, nothing but ones
+            let cases: Vec<(u64, usize)> = vec![(a, 4095), (a, 4096), (a + 1, 4096), (a + 3, 8192), (a, 65536), (a, 70000), (a, 70001), (a + 60000, 14097), (a, 140000), (b - 1, 8192), (c + 5, 131000)];
+            for tag in [0xF0u8, 0xF1, 0xF2, 0xF3] {
+                for route in ROUTES.iter() {
+                    for (addr, len) in &cases {
+                        if route.supports(*len) {
+                            let op = Op { route: *route, addr: *addr, len: *len, tag };
+                            step(&ctx, anon, &m, &l, &st, &op, &[], None);
+                            t += 1;
+                        }
                     }
                 }
             }
